@@ -36,9 +36,11 @@ def block(s, i, op='{', cl='}'):
         c = s[j]
         if c == '"':
             j += 1
-            while s[j] != '"':
+            while j < n and s[j] != '"':
                 if s[j] == '\\': j += 1
                 j += 1
+        elif c == "'" and j + 2 < n and (s[j + 2] == "'" or (s[j + 1] == '\\' and j + 3 < n and s[j + 3] == "'")):
+            j += 2 if s[j + 2] == "'" else 3          # a character literal ('{', '"', '\\''), not a lifetime
         elif c == op: d += 1
         elif c == cl:
             d -= 1
@@ -300,19 +302,43 @@ def f8(src, st):
 BUDGET_OPS = [('if', r'\bif\b'), ('match', r'\bmatch\b'), ('while', r'\bwhile\b'), ('==', r'=='), ('!=', r'!='), ('<=', r'<='), ('>=', r'(?<![=])>='), ('&&', r'&&'), ('||', r'\|\|')]
 def f11(src, st):
     """per module: how many branching constructs / comparisons and which integer literals (how often) the non-test source holds.
-    A needle (`if n == 4096 {..}`) that no stream will ever hit still adds a branch, a comparison or a literal."""
+    A needle (`if n == 4096 {..}`) that no stream will ever hit still adds a branch, a comparison or a literal.  String and character
+    literals are listed too (`str:` / `chr:` items): they are not part of any tie, they guide the search (vlib/magic.py)."""
     out = []
     for mod in MODS:
-        s = re.sub(r'"(?:[^"\\\\]|\\\\.)*"', '""', src[mod])
-        s = re.sub(r"'(?:[^'\\\\]|\\\\.)'", "' '", s)
+        raw = src[mod]
+        strs = {}; chrs = {}; code = []
+        i = 0; n = len(raw)
+        while i < n:                            # one pass: character literals before strings ('"' is not the start of a string)
+            c = raw[i]
+            if c == '"':
+                j = i + 1
+                while j < n and raw[j] != '"':
+                    if raw[j] == '\\': j += 1
+                    j += 1
+                t = raw[i + 1:j]
+                if t: strs[t] = strs.get(t, 0) + 1
+                code.append('""'); i = j + 1
+            elif c == "'" and i + 2 < n and (raw[i + 2] == "'" or (raw[i + 1] == '\\' and i + 3 < n and raw[i + 3] == "'")) and not (i > 0 and (raw[i - 1].isalnum() or raw[i - 1] == '_')):
+                j = i + (3 if raw[i + 2] == "'" else 4)
+                t = raw[i + 1:j - 1]; chrs[t] = chrs.get(t, 0) + 1
+                code.append("' '"); i = j
+            else:
+                code.append(c); i += 1
+        s = ''.join(code)
         for name, rx in BUDGET_OPS:
             n = len(re.findall(rx, s))
             if n: out.append((mod, name, n))
         if mod != 'iana':                       # the registry tables are facts of their own (F1), row by row
             lits = {}
-            for m in re.finditer(r'(?<![\w.])(\d+)(?:_?[iu](?:8|16|32|64|128|size))?(?![\w.])', s):
-                lits[m.group(1)] = lits.get(m.group(1), 0) + 1
-            for k in sorted(lits, key=int): out.append((mod, 'lit:' + k, lits[k]))
+            for m in re.finditer(r'(?<![\w.])(0x[0-9a-fA-F_]+|0b[01_]+|0o[0-7_]+|\d[\d_]*)(?:[iu](?:8|16|32|64|128|size))?(?![\w.])', s):
+                t = m.group(1).replace('_', '')
+                try: v = int(t, 0)
+                except ValueError: continue
+                lits[v] = lits.get(v, 0) + 1
+            for k in sorted(lits): out.append((mod, 'lit:%d' % k, lits[k]))
+            for k in sorted(strs): out.append((mod, 'str:' + k, strs[k]))
+            for k in sorted(chrs): out.append((mod, 'chr:' + k, chrs[k]))
     st['F11'] = 'ok'
     return out
 
